@@ -86,7 +86,11 @@ def run(ctx):
         "recomputed size (|difference| <= one ulp of the largest of |X|, |size|, |edge|; counted as "
         "oracle_floatspec_far-rounded, and oracle_floatspec_union-short when the union's rounded far edge ends below "
         "an operand's, so that the operand's last representable point is not In the union — inherent to the "
-        "(X, Y, Width, Height) representation, not alarmed on); rectangles whose positive size is absorbed "
+        "(X, Y, Width, Height) representation; oracle_floatspec_intersect-long is the mirror image for Intersect: its "
+        "far edge rounds beyond an operand's, so its last representable point is not In both operands). This far-edge "
+        "effect is a KNOWN FINDING recorded by call site (Rect.Union / Rect.Intersect): four specific inputs are judged "
+        "strictly on every run (corpus/C18/floatspec.known-union-short.ops, op words fs64s/fs32s, matched against "
+        "known_findings.json); other inputs of the class are counted, not alarmed; rectangles whose positive size is absorbed "
         "(fl(X+Width) == X: non-Empty but without representable point) are skipped and counted "
         "(oracle_floatspec_absorbed)",
     ]
